@@ -170,6 +170,11 @@ Goal True. idtac "ASSUMPTIONS fold_vjp". Abort.
 Print Assumptions fold_vjp.
 
 (* ---------------------------------------------------------------- non-vacuity *)
+(* the scalar laws are satisfiable: integers (ring) and canonical rationals Qc (field, with division by a count) *)
+Example laws_Z : ScalarLaws Z * CommLaws Z.
+Proof. exact (ScalarLawsZ, CommLawsZ). Qed.
+Example laws_Qc : ScalarLaws Qc * CommLaws Qc * DivLaws Qc.
+Proof. exact (ScalarLawsQc, CommLawsQc, DivLawsQc). Qed.
 Definition g_ex : geom := {| gN := 1; gC := 1; gH := 3; gW := 4; kH := 2; kW := 2; sH := 1; sW := 2; pH := 1; pW := 0; dH := 1; dW := 2 |}.
 Example g_ex_valid : valid g_ex /\ lH g_ex = 4 /\ lW g_ex = 1.
 Proof. unfold valid. cbn. repeat split; try lia; vm_compute; congruence. Qed.
